@@ -143,6 +143,7 @@ func c13Seqs(maxLen int) [][]int {
 		}
 	}
 	rec(nil)
+	sort.SliceStable(out, func(a, b int) bool { return len(out[a]) < len(out[b]) }) // short ones first: the first failing input is small
 	return out
 }
 
@@ -474,7 +475,7 @@ func c13Term(env c13Env, g c13Group) string {
 }
 
 func c13ChildMain(args []string) {
-	debug.SetMaxStack(32 << 20)
+	debug.SetMaxStack(4 << 20) // a logging call needs a few kB; a runaway recursion dies within milliseconds
 	var job c13Job
 	must(json.NewDecoder(os.Stdin).Decode(&job))
 	env := c13Setup()
@@ -583,6 +584,8 @@ func c13ChildMain(args []string) {
 }
 
 // ---- the parent ----
+var c13Traced = map[string]bool{}
+
 type c13Batch struct {
 	job c13Job
 	out *c13Out
@@ -648,14 +651,20 @@ func c13Culprit(job c13Job, timeout time.Duration) (g *c13Group, tailLog string)
 
 func c13Merge(r *Run, b *c13Batch, timeout time.Duration) {
 	if b.out == nil {
-		g, tl := c13Culprit(b.job, timeout)
 		key := "C13/crash"
 		if strings.Contains(b.err, "no result within") {
 			key = "C13/hang"
 		}
-		if strings.Contains(tl, "stack exceeds") || strings.Contains(b.log, "stack exceeds") {
+		if strings.Contains(b.log, "stack exceeds") {
 			key = "C13/cascade"
 		}
+		r.Evals++
+		if c13Traced[key] {
+			r.Dist["oracle_fail:"+key]++ // the first batch that died this way names the schedule
+			return
+		}
+		c13Traced[key] = true
+		g, tl := c13Culprit(b.job, timeout)
 		var rp any = b.job
 		where := "the batch"
 		if g != nil {
@@ -663,7 +672,6 @@ func c13Merge(r *Run, b *c13Batch, timeout time.Duration) {
 			where = fmt.Sprintf("calls %v on logger level %d under schedule %v (forever=%v)", g.Calls, g.Level, g.Runs[0].Sched, g.Runs[0].Forever)
 		}
 		r.Fail(key, fmt.Sprintf("the process running the logging calls did not survive: %s; %s; %s", b.err, where, tl), rp)
-		r.Evals++
 		return
 	}
 	o := b.out
